@@ -99,8 +99,11 @@ SaBegin(e) == /\ phase = "live" /\ H(tid).blocks[e.b].async /\ e.b \in started /
               /\ \A a \in started : H(tid).blocks[a].async => stopcnt[a] = 1     \* after stop() of all of them
               /\ sast' = [sast EXCEPT ![e.b] = "running"] /\ sabeg' = [sabeg EXCEPT ![e.b] = e.t]
               /\ UNCHANGED <<simset, err, supf, started, failedstart, stopcnt, stopt0, phase, doomed, sdrun, sdwant>>
+(* blocking (not awaiting) code of the clean-up routines of this run: a timeout cannot    *)
+(* interrupt it, it only takes effect when the loop gets control again                   *)
+Busy == H(tid).busy
 SaEnd(e) == /\ sast[e.b] = "running" /\ sast' = [sast EXCEPT ![e.b] = "done"]
-            /\ e.t <= sabeg[e.b] + MaxTmo                                        \* bounded by the (largest) stop_timeout
+            /\ e.t <= sabeg[e.b] + MaxTmo + Busy                                      \* bounded by the (largest) stop_timeout
             /\ UNCHANGED <<simset, err, supf, started, failedstart, stopcnt, sabeg, stopt0, phase, doomed, sdrun, sdwant>>
 Finished(e) == /\ phase = "live" /\ phase' = "finished"
                /\ IF err = NONE THEN doomed /\ e.exc > 0 /\ e.errc = e.exc /\ err' = e.exc
@@ -108,7 +111,7 @@ Finished(e) == /\ phase = "live" /\ phase' = "finished"
                /\ \A b \in B : stopcnt[b] = (IF b \in started THEN 1 ELSE 0)
                /\ \A b \in sdwant : sast[b] \in {"no", "done"} => b \in sdrun     \* stop_data was delivered
                /\ \A b \in B : sast[b] # "running" \/ e.t >= sabeg[b] + H(tid).blocks[b].tmo
-               /\ (stopt0 # NONE => e.t <= stopt0 + MaxTmo)
+               /\ (stopt0 # NONE => e.t <= stopt0 + MaxTmo + Busy)
                /\ UNCHANGED <<simset, supf, started, failedstart, stopcnt, sast, sabeg, stopt0, doomed, sdrun, sdwant>>
 RunRes(e) == /\ phase = "finished"
              /\ e.code = (IF err # 0 THEN err ELSE IF supf # NONE THEN supf ELSE NONE)
